@@ -11,6 +11,10 @@
                              reduced pivot rows (gauss_submatrix_top, tables, copy_back_rows) and
                              mzd_find_pivot obeys the "left-most column, first row" pivot rule and only
                              adds earlier rows to later rows, so GaussRef.ref_canonical applies.
+     m4ri_nonfull_canonical_any   ANY switching oracle, window echeloniser returning the output of naive
+                             Gauss on the window: again bit for bit [gauss_delayed false 0 A] (sections
+                             13-16: the interchanges of naive Gauss on the window, shifted, continue the
+                             interchange sequence of the block algorithm).
 
    Nothing in Alg/M4RIProofs.v is changed; its lemmas on clear_above, the tables and process_rows are
    reused. *)
@@ -876,14 +880,641 @@ Proof.
   destruct (m4ri_loop_nonfull ech k ktop oracle A Hk
               ltac:(intros it c M piv Hit; rewrite Ho in Hit; discriminate)
               (nc A) 1 0 A [] [] false (ninv_init A HA) ltac:(lia) ltac:(lia))
-    as (M' & piv' & E & H1 & H2 & H3 & H4).
+    as (M' & piv' & E & HM' & Heq & Href & H4).
   cbn [length] in E. rewrite E. f_equal.
   destruct (H4 Ho) as (sw & Hrule & Hlow).
-  destruct H2 as (Hnr & Hnc & _).
   rewrite (surjective_pairing (gauss_delayed false 0 A)). f_equal.
-  - rewrite gauss_rank by assumption. apply (rank_canonical A M'); auto.
-    split; [assumption|]. split; [assumption|]. destruct (gauss_spec_ex false A HA) as (q & _ & _ & Hq & _).
-    destruct (H4 Ho) as _. exact (proj2 (proj2 (conj Hnr (conj Hnc I)))) || idtac.
-    admit.
-  - apply (ref_canonical A M' sw piv'); auto.
-Abort.
+  - rewrite gauss_rank by assumption. now apply (rank_canonical A M').
+  - destruct Heq as (Hnr & Hnc & _). apply (ref_canonical A M' sw piv'); auto.
+Qed.
+
+(** mzd_echelonize_m4ri(A, 0, k), k >= 1 *)
+Theorem m4ri_run_nonfull_canonical k A : 1 <= k -> wf A ->
+  m4ri_run k false A = Some (gauss_delayed false 0 A).
+Proof. intros Hk HA. unfold m4ri_run. now apply m4ri_nonfull_canonical. Qed.
+
+Corollary m4ri_run_nonfull_spec k A : 1 <= k -> wf A ->
+  exists M piv, m4ri_run k false A = Some (length piv, M) /\
+                length piv = rank A /\ wf M /\ row_equiv A M /\ is_ref M piv.
+Proof.
+  intros Hk HA. rewrite (m4ri_run_nonfull_canonical k A Hk HA).
+  destruct (gauss_spec_ex false A HA) as (piv & Hr & HM & Heq & Href).
+  exists (snd (gauss_delayed false 0 A)), piv. rewrite <- Hr, <- surjective_pairing.
+  split; [reflexivity|]. split; [|now split]. now apply gauss_rank.
+Qed.
+
+(** * 13. the switch before the loop (brilliantrussian.c:685-693): the window is the whole matrix *)
+Lemma mpaste_whole A W : wf A -> wf W -> nr W = nr A -> nc W = nc A -> mpaste A 0 0 W = W.
+Proof.
+  intros HA HW Hnr Hnc. apply mat_ext; auto.
+  - apply wf_mpaste; auto. lia.
+  - intros i j Hi Hj. rewrite get_mpaste by (auto; rewrite (wf_len A HA); lia).
+    cbn [nr nc mpaste map_rows] in Hi, Hj. rewrite !Nat.sub_0_r. cbn [Nat.add].
+    destruct (Nat.ltb_spec i (nr W)), (Nat.ltb_spec j (nc W)); try lia. reflexivity.
+Qed.
+
+Lemma msub_whole A : wf A -> msub A 0 0 (nr A - 0) (nc A - 0) = A.
+Proof.
+  intros HA. rewrite !Nat.sub_0_r. apply mat_ext; auto.
+  - apply wf_msub. rewrite (wf_len A HA). lia.
+  - intros i j Hi Hj. cbn [nr nc msub] in Hi, Hj. rewrite get_msub by (rewrite (wf_len A HA); lia).
+    destruct (Nat.ltb_spec i (nr A)), (Nat.ltb_spec j (nc A)); try lia. reflexivity.
+Qed.
+
+(** the density test fires before the loop (positive dimensions): the result is what the window
+    echeloniser returns on A itself *)
+Theorem m4ri_nonfull_canonical_entry ech k ktop oracle A :
+  (forall W, wf W -> ech false W = gauss_delayed false 0 W) ->
+  oracle 0 = true -> wf A -> 0 < nr A -> 0 < nc A ->
+  m4ri_model ech k ktop oracle false A = Some (gauss_delayed false 0 A).
+Proof.
+  intros Hech Ho HA Hr Hc. unfold m4ri_model. rewrite Ho.
+  destruct (Nat.ltb_spec 0 (nc A)); [|lia]. destruct (Nat.ltb_spec 0 (nr A)); [|lia]. cbn [andb].
+  unfold switch. replace (radix * (0 / radix)) with 0 by (unfold radix; reflexivity).
+  rewrite (msub_whole A HA), (Hech A HA).
+  destruct (gauss_spec_ex false A HA) as (q & _ & HW' & (Hnr & Hnc & _) & _).
+  destruct (gauss_delayed false 0 A) as [r2 W'] eqn:Eg. cbn [snd] in *. cbn [andb Nat.add]. f_equal. f_equal.
+  apply mpaste_whole; auto.
+Qed.
+
+(** evaluation: a switch in the middle of the loop (proved in general in section 16) *)
+Example m4ri_nonfull_switch_examples :
+  forallb (fun A => forallb (fun n => forallb (fun k =>
+     res_eqb (m4ri_model (fun f W => gauss_delayed f 0 W) k 2 (fun it => it =? n) false A)
+             (Some (gauss_delayed false 0 A))) [1; 2]) [1; 2; 3])
+          m4ri_examples = true.
+Proof. vm_compute. reflexivity. Qed.
+
+(** non-vacuity of the hypotheses of the main theorems *)
+Example ech_nonfull_ok_gauss : ech_nonfull_ok (fun f W => gauss_delayed f 0 W).
+Proof. intros W HW. exact (gauss_spec_ex false W HW). Qed.
+
+Example m4ri_nonfull_spec_example :
+  let A := nth 6 m4ri_examples (mzero 0 0) in
+  wf A /\ ech_nonfull_ok (fun f W => gauss_delayed f 0 W) /\
+  m4ri_model (fun f W => gauss_delayed f 0 W) 2 1 (fun it => it =? 1) false A = Some (gauss_delayed false 0 A) /\
+  m4ri_run 3 false A = Some (gauss_delayed false 0 A) /\ fst (gauss_delayed false 0 A) = 8.
+Proof.
+  cbv zeta. split; [apply wfb_spec; vm_compute; reflexivity|]. split; [exact ech_nonfull_ok_gauss|].
+  vm_compute. repeat split.
+Qed.
+
+
+(** * 14. a switch in the middle of the loop: the interchanges of naive Gauss on the window continue
+    the interchange sequence of the block algorithm *)
+Record topst (M : mat) (piv : list nat) (r c cw : nat) : Prop := mk_topst {
+  tp_wf : wf M;
+  tp_r : r = length piv;
+  tp_sort : StronglySorted lt piv;
+  tp_plt : forall p, In p piv -> p < c;
+  tp_lead : forall i, i < r -> lead (row M i) = Some (nth i piv 0);
+  tp_zero : forall i col, r <= i -> col < c -> get M i col = false;
+  tp_cw : cw <= c;
+  tp_rn : r <= nr M;
+  tp_cn : cw <= nc M
+}.
+
+Definition shiftsw (r : nat) (l : list (nat * nat)) : list (nat * nat) :=
+  map (fun ab => (r + fst ab, r + snd ab)) l.
+
+Lemma lrel_swap_ge s M B a b : s <= a -> s <= b -> a < length (rows M) -> b < length (rows M) ->
+  length (rows B) = length (rows M) -> lrel s M B -> lrel s (row_swap M a b) (row_swap B a b).
+Proof.
+  intros Ha Hb Hal Hbl Hl H.
+  assert (Hrow : forall i, exists i', row (row_swap M a b) i = row M i' /\
+                                      row (row_swap B a b) i = row B i' /\ Nat.min i' s = Nat.min i s).
+  { intros i. rewrite !row_row_swap by lia.
+    destruct (Nat.eqb_spec i b) as [->|Hnb]; [exists a; repeat split; lia|].
+    destruct (Nat.eqb_spec i a) as [->|Hna]; [exists b; repeat split; lia|].
+    exists i. now repeat split. }
+  assert (HagM : forall x, bounded s x -> vmul x (row_swap M a b) = vmul x M).
+  { intros x Hx. apply (vmul_agree x _ _ s Hx). intros k Hk. rewrite row_row_swap by lia.
+    destruct (Nat.eqb_spec k b); [lia|]. destruct (Nat.eqb_spec k a); [lia|reflexivity]. }
+  assert (HagB : forall x, bounded s x -> vmul x (row_swap B a b) = vmul x B).
+  { intros x Hx. apply (vmul_agree x _ _ s Hx). intros k Hk. rewrite row_row_swap by lia.
+    destruct (Nat.eqb_spec k b); [lia|]. destruct (Nat.eqb_spec k a); [lia|reflexivity]. }
+  intros i. destruct (Hrow i) as [i' [E1 [E2 Hmin]]]. destruct (H i') as [[x [Hx Ex]] [y [Hy Ey]]].
+  rewrite Hmin in Hx, Hy. split.
+  - exists x. split; [assumption|]. rewrite E1, E2, HagM; [assumption|].
+    apply (bounded_mono (Nat.min i s)); [lia|assumption].
+  - exists y. split; [assumption|]. rewrite E1, E2, HagB; [assumption|].
+    apply (bounded_mono (Nat.min i s)); [lia|assumption].
+Qed.
+
+Lemma rule_at_app_l A sw l k : k < length sw -> rule_at A sw k -> rule_at A (sw ++ l) k.
+Proof.
+  intros Hk H. unfold rule_at in *. rewrite app_nth1 by assumption.
+  rewrite firstn_app. replace (k - length sw) with 0 by lia. cbn [firstn]. now rewrite app_nil_r.
+Qed.
+
+Lemma apply_swaps_app_l l1 l2 A : apply_swaps (l1 ++ l2) A = apply_swaps l2 (apply_swaps l1 A).
+Proof. unfold apply_swaps. apply fold_left_app. Qed.
+
+Lemma shiftsw_app r l1 l2 : shiftsw r (l1 ++ l2) = shiftsw r l1 ++ shiftsw r l2.
+Proof. unfold shiftsw. apply map_app. Qed.
+
+(** a row with no coefficient below: dependence on no rows means vanishing *)
+Lemma dep0_zero B j c : dep B 0 j c <-> forall col, col <= c -> get B j col = false.
+Proof.
+  split.
+  - intros [x [Hx H]] col Hcol. unfold get. rewrite (H col Hcol), vmul_all_false; [apply N.bits_0|].
+    intros k. apply Hx. lia.
+  - intros H. exists 0%N. split; [apply bounded_0|]. intros col Hcol. rewrite vmul_0, N.bits_0. now apply H.
+Qed.
+
+
+(** ** [dep] on the trailing window vs. on the whole matrix *)
+Section Window.
+  Variables (M : mat) (piv : list nat) (r c cw : nat).
+  Hypothesis Htop : topst M piv r c cw.
+  Let HM : wf M := tp_wf _ _ _ _ _ Htop.
+  Let Hr : r = length piv := tp_r _ _ _ _ _ Htop.
+  Let Hsort : StronglySorted lt piv := tp_sort _ _ _ _ _ Htop.
+  Let Hplt : forall p, In p piv -> p < c := tp_plt _ _ _ _ _ Htop.
+  Let Hlead : forall i, i < r -> lead (row M i) = Some (nth i piv 0) := tp_lead _ _ _ _ _ Htop.
+  Let Hzero : forall i col, r <= i -> col < c -> get M i col = false := tp_zero _ _ _ _ _ Htop.
+  Let Hcw : cw <= c := tp_cw _ _ _ _ _ Htop.
+  Let Hrn : r <= nr M := tp_rn _ _ _ _ _ Htop.
+  Let Hcn : cw <= nc M := tp_cn _ _ _ _ _ Htop.
+  Let W := msub M r cw (nr M - r) (nc M - cw).
+
+  Local Lemma HlenM : length (rows M) = nr M.
+  Proof. now apply wf_len. Qed.
+
+  Local Lemma Hfit : r + (nr M - r) <= length (rows M).
+  Proof. rewrite HlenM. lia. Qed.
+
+  Local Lemma HlenW : length (rows W) = nr M - r.
+  Proof. unfold W. apply len_msub. apply Hfit. Qed.
+
+  Lemma get_window t col : get M (r + t) (cw + col) = get W t col.
+  Proof.
+    unfold W. rewrite get_msub by apply Hfit.
+    destruct (Nat.ltb_spec t (nr M - r)) as [Ht|Ht]; cbn [andb].
+    - destruct (Nat.ltb_spec col (nc M - cw)) as [Hc|Hc]; cbn [andb]; [reflexivity|].
+      apply get_out_col; [assumption|lia].
+    - apply get_out_row; [assumption|lia].
+  Qed.
+
+  Lemma row_window t col :
+    N.testbit (row M (r + t)) (N.of_nat (cw + col)) = N.testbit (row W t) (N.of_nat col).
+  Proof. exact (get_window t col). Qed.
+
+  Lemma vmul_shift_hi x col :
+    N.testbit (vmul (N.shiftl x (N.of_nat r)) M) (N.of_nat (cw + col))
+    = N.testbit (vmul x W) (N.of_nat col).
+  Proof.
+    rewrite !testbit_vmul. rewrite HlenW, HlenM.
+    replace (nr M) with (r + (nr M - r)) at 1 by lia.
+    rewrite xsum_app. rewrite xsum_zero.
+    - rewrite xorb_false_l. apply xsum_ext. intros k Hk.
+      rewrite testbit_shiftl_nat. destruct (Nat.leb_spec r (r + k)); [|lia]. cbn [andb].
+      replace (r + k - r) with k by lia. now rewrite get_window.
+    - intros k Hk. rewrite testbit_shiftl_nat. destruct (Nat.leb_spec r k); [lia|]. reflexivity.
+  Qed.
+
+  Lemma vmul_shift_lo x col : col < cw ->
+    N.testbit (vmul (N.shiftl x (N.of_nat r)) M) (N.of_nat col) = false.
+  Proof.
+    intros Hc. rewrite testbit_vmul. apply xsum_zero. intros k Hk.
+    rewrite testbit_shiftl_nat. destruct (Nat.leb_spec r k); [|reflexivity]. cbn [andb].
+    rewrite Hzero by lia. apply andb_false_r.
+  Qed.
+
+  Lemma dep_window_to_whole k j cc : dep W k j cc -> dep M (r + k) (r + j) (cw + cc).
+  Proof.
+    intros [x [Hx Hag]]. exists (N.shiftl x (N.of_nat r)). split.
+    - rewrite (Nat.add_comm r k). now apply bounded_shiftl.
+    - intros col Hcol. destruct (Nat.lt_ge_cases col cw) as [Hlo|Hhi].
+      + rewrite vmul_shift_lo by assumption. apply (Hzero (r + j) col); lia.
+      + replace col with (cw + (col - cw)) by lia.
+        rewrite row_window, vmul_shift_hi. apply Hag. lia.
+  Qed.
+
+  (** a combination whose first used row among the r echelon rows is k0 has a one at pivot k0,
+      whatever rows >= r it also uses ([echelon_prefix_bit] without the bound on u) *)
+  Lemma echelon_prefix_bit_any u k0 : k0 < r ->
+    N.testbit u (N.of_nat k0) = true -> (forall k, k < k0 -> N.testbit u (N.of_nat k) = false) ->
+    N.testbit (vmul u M) (N.of_nat (nth k0 piv 0)) = true.
+  Proof.
+    intros Hk0 Hbit Hmin. rewrite testbit_vmul, HlenM.
+    assert (Hk0' : k0 < nr M) by lia.
+    rewrite (xsum_single _ _ k0 Hk0').
+    - rewrite Hbit. unfold get. apply lead_bit. now apply Hlead.
+    - intros k _ Hne. destruct (Nat.lt_ge_cases k k0) as [Hk|Hk]; [now rewrite Hmin|].
+      destruct (Nat.lt_ge_cases k r) as [Hk'|Hk'].
+      + unfold get. rewrite (lead_before (row M k) (nth k piv 0)); [apply andb_false_r|now apply Hlead|].
+        apply sorted_nth_lt; [assumption|lia|lia].
+      + rewrite Hzero; [apply andb_false_r|assumption|]. apply Hplt, nth_In. lia.
+  Qed.
+
+  Lemma dep_whole_to_window k j cc : k <= j -> dep M (r + k) (r + j) (cw + cc) -> dep W k j cc.
+  Proof.
+    intros _ [y [Hy Hag]].
+    destruct (Nat.lt_ge_cases (cw + cc) c) as [Hlt|Hge].
+    - exists 0%N. split; [apply bounded_0|]. intros col Hcol.
+      rewrite vmul_0, N.bits_0. rewrite <- row_window. apply (Hzero (r + j) (cw + col)); lia.
+    - assert (Hlow : forall t, t < r -> N.testbit y (N.of_nat t) = false).
+      { destruct (least_witness (fun t => N.testbit y (N.of_nat t)) r) as [[k0 [Hk0 [Hb0 Hmin]]]|Hnone];
+          [exfalso|exact Hnone].
+        pose proof (echelon_prefix_bit_any y k0 Hk0 Hb0 Hmin) as Hbit.
+        assert (Hp : nth k0 piv 0 < c) by (apply Hplt, nth_In; lia).
+        rewrite <- Hag in Hbit by lia.
+        pose proof (Hzero (r + j) (nth k0 piv 0) ltac:(lia) Hp) as Hz. unfold get in Hz.
+        rewrite Hz in Hbit. discriminate. }
+      set (x := N.shiftr y (N.of_nat r)).
+      assert (Hx : bounded k x).
+      { intros t Ht. unfold x. rewrite testbit_shiftr_nat. apply Hy. lia. }
+      assert (Exy : vmul y M = vmul (N.shiftl x (N.of_nat r)) M).
+      { apply vmul_ext. intros t _. rewrite testbit_shiftl_nat. unfold x.
+        destruct (Nat.leb_spec r t) as [Ht|Ht]; cbn [andb].
+        - rewrite testbit_shiftr_nat. f_equal. f_equal. lia.
+        - now apply Hlow. }
+      exists x. split; [assumption|]. intros col Hcol.
+      rewrite <- row_window, <- vmul_shift_hi, <- Exy. apply Hag. lia.
+  Qed.
+End Window.
+
+Lemma msub_row_swap M r cw a b : wf M -> r + a < nr M -> r + b < nr M ->
+  msub (row_swap M (r + a) (r + b)) r cw (nr M - r) (nc M - cw)
+  = row_swap (msub M r cw (nr M - r) (nc M - cw)) a b.
+Proof.
+  intros HM Ha Hb. pose proof (wf_len M HM) as Hl.
+  assert (Hfit : r + (nr M - r) <= length (rows M)) by lia.
+  assert (HW : wf (msub M r cw (nr M - r) (nc M - cw))) by now apply wf_msub.
+  apply mat_ext.
+  - apply wf_msub. rewrite rows_row_swap_length. exact Hfit.
+  - now apply wf_row_swap.
+  - rewrite nr_row_swap. reflexivity.
+  - reflexivity.
+  - intros i j Hi Hj. cbn [nr nc msub] in Hi, Hj.
+    rewrite get_msub by (rewrite rows_row_swap_length; exact Hfit).
+    rewrite (get_row_swap (msub M r cw (nr M - r) (nc M - cw))) by (try assumption; cbn [nr msub]; lia).
+    rewrite get_row_swap by assumption.
+    rewrite get_msub by exact Hfit.
+    destruct (Nat.ltb_spec i (nr M - r)); [|lia]. destruct (Nat.ltb_spec j (nc M - cw)); [|lia].
+    cbn [andb].
+    destruct (Nat.eqb_spec i a) as [->|Hia].
+    + rewrite Nat.eqb_refl. destruct (Nat.ltb_spec b (nr M - r)); [|lia]. reflexivity.
+    + destruct (Nat.eqb_spec (r + i) (r + a)); [lia|].
+      destruct (Nat.eqb_spec i b) as [->|Hib].
+      * rewrite Nat.eqb_refl. destruct (Nat.ltb_spec a (nr M - r)); [|lia]. reflexivity.
+      * destruct (Nat.eqb_spec (r + i) (r + b)); [lia|].
+        destruct (Nat.ltb_spec i (nr M - r)); [|lia]. reflexivity.
+Qed.
+
+
+Lemma dep_lrel_iff s M B j c0 : lrel s M B -> (dep B s j c0 <-> dep M s j c0).
+Proof.
+  intros H. split.
+  - intros [y [Hy Hag]]. destruct (H j) as [[x [Hx Ex]] _].
+    assert (Hsp : spanlt B s (vmul y B)) by (exists y; now split).
+    apply (lrel_span_BM s M B _ H) in Hsp as [z [Hz Ez]].
+    exists (N.lxor x z). split.
+    + apply bounded_lxor; [apply (bounded_mono (Nat.min j s)); [lia|assumption]|assumption].
+    + intros col Hcol. rewrite Ex at 1. rewrite vmul_lxor, !N.lxor_spec, Hag, Ez by assumption.
+      apply xorb_comm.
+  - intros [z [Hz Hag]]. apply (dep_of_agree s M B j c0 z H Hz). intros col Hcol.
+    unfold get. now apply Hag.
+Qed.
+
+
+  (** the window interchanges applied to the whole matrix *)
+  Lemma shifted_swaps M B piv r c cw l : topst M piv r c cw -> lrel r M B ->
+    length (rows B) = length (rows M) ->
+    (forall ab, In ab l -> fst ab < nr M - r /\ snd ab < nr M - r) ->
+    let Mk := apply_swaps (shiftsw r l) M in let Bk := apply_swaps (shiftsw r l) B in
+    topst Mk piv r c cw /\ nr Mk = nr M /\ nc Mk = nc M /\
+    msub Mk r cw (nr M - r) (nc M - cw) = apply_swaps l (msub M r cw (nr M - r) (nc M - cw)) /\
+    lrel r Mk Bk /\ length (rows Bk) = length (rows Mk) /\ (forall i, i < r -> row Mk i = row M i).
+  Proof.
+    intros Ht Hrel Hl. induction l as [|ab l IH] using rev_ind; intros Hv; cbv zeta.
+    - cbn [shiftsw map apply_swaps fold_left]. splits; auto.
+    - rewrite shiftsw_app, !apply_swaps_app_l. cbn [shiftsw map apply_swaps fold_left fst snd].
+      destruct IH as (Ht' & Hnr & Hnc & Hms & Hrel' & Hl' & Hsame).
+      { intros x Hx. apply Hv. apply in_or_app. now left. }
+      set (Mk := apply_swaps (shiftsw r l) M) in *. set (Bk := apply_swaps (shiftsw r l) B) in *.
+      fold (shiftsw r l). fold (apply_swaps (shiftsw r l) M). fold (apply_swaps (shiftsw r l) B). fold Mk Bk.
+      destruct (Hv ab ltac:(apply in_or_app; right; now left)) as [Ha Hb].
+      destruct Ht' as [HM Hr Hs Hp Hld Hz Hcw Hrn Hcn].
+      pose proof (wf_len Mk HM) as HlM.
+      assert (Hrow : forall i, row (row_swap Mk (r + fst ab) (r + snd ab)) i =
+                if i =? r + snd ab then row Mk (r + fst ab) else if i =? r + fst ab then row Mk (r + snd ab) else row Mk i).
+      { intros i. apply row_row_swap; lia. }
+      splits.
+      + constructor; auto.
+        * now apply wf_row_swap.
+        * intros i Hi. rewrite Hrow. destruct (Nat.eqb_spec i (r + snd ab)); [lia|].
+          destruct (Nat.eqb_spec i (r + fst ab)); [lia|]. now apply Hld.
+        * intros i col Hi Hcol. unfold get. rewrite Hrow.
+          destruct (i =? r + snd ab); [|destruct (i =? r + fst ab)]; apply Hz; lia.
+      + exact Hnr.
+      + exact Hnc.
+      + rewrite <- Hnr, <- Hnc. rewrite msub_row_swap by (auto; lia). rewrite Hnr, Hnc, Hms. reflexivity.
+      + apply lrel_swap_ge; auto; lia.
+      + now rewrite !rows_row_swap_length.
+      + intros i Hi. rewrite Hrow. destruct (Nat.eqb_spec i (r + snd ab)); [lia|].
+        destruct (Nat.eqb_spec i (r + fst ab)); [lia|]. now apply Hsame.
+  Qed.
+
+  (** the first interchange of the window when mzd_find_pivot has already put the pivot row in place *)
+  Lemma window_first_swap W swW c0 : wf W -> first_row_rule W swW ->
+    get W 0 c0 = true -> (forall i col, col < c0 -> get W i col = false) ->
+    exists rest, swW = (0, 0) :: rest.
+  Proof.
+    intros HW [Hr Hstop] Hg Hz. destruct swW as [|[a b] rest].
+    - exfalso. specialize (Hstop 0 c0 (Nat.le_0_l _)). cbn [length apply_swaps fold_left] in Hstop.
+      pose proof (proj1 (dep0_zero _ _ _) Hstop) as Hst. rewrite (Hst c0 (Nat.le_refl _)) in Hg. discriminate.
+    - exists rest. f_equal. destruct (Hr 0 ltac:(cbn [length]; lia)) as (Ha & Hb & cc & Hn & Hfirst & Hleft).
+      cbn [nth fst snd firstn apply_swaps fold_left] in Ha, Hb, Hn, Hfirst, Hleft. subst a. f_equal.
+      destruct (Nat.eq_dec b 0) as [->|Hne]; [reflexivity|]. exfalso.
+      pose proof (proj1 (dep0_zero _ _ _) (Hfirst 0 ltac:(lia))) as H0.
+      assert (Hcc : cc < c0).
+      { destruct (Nat.lt_ge_cases cc c0); [assumption|]. rewrite (H0 c0) in Hg by assumption. discriminate. }
+      apply Hn. apply (proj2 (dep0_zero _ _ _)). intros col Hcol. apply Hz. lia.
+  Qed.
+
+  Lemma nth_shiftsw r l k : k < length l ->
+    nth k (shiftsw r l) (0, 0) = (r + fst (nth k l (0, 0)), r + snd (nth k l (0, 0))).
+  Proof.
+    revert k. induction l as [|ab l IH]; intros k Hk; cbn [length] in Hk; [lia|].
+    destruct k as [|k]; cbn [shiftsw map nth]; [reflexivity|]. apply IH. lia.
+  Qed.
+
+  Lemma firstn_shiftsw r l k : firstn k (shiftsw r l) = shiftsw r (firstn k l).
+  Proof. unfold shiftsw. apply firstn_map. Qed.
+
+  (** * the interchange sequence of the whole computation *)
+  Lemma switch_rule A c M piv sw pend : ninv A c M piv sw pend -> c < nc M -> length piv < nr M ->
+    let r := length piv in let cw := radix * (c / radix) in
+    let W := msub M r cw (nr M - r) (nc M - cw) in
+    exists sw', first_row_rule A sw' /\
+                lower_rel (apply_swaps sw' A) (mpaste M r cw (snd (gauss_delayed false 0 W))).
+  Proof.
+    intros [Hg Hswl HBlen Hrel Hrule Hpend] Hc Hr r cw W. fold r in Hswl, Hrel, Hpend.
+    set (B := apply_swaps sw A) in *.
+    pose proof Hg as [HM Heq Hlen Hs Hlt Hlead Hzero _]. fold r in Hlen, Hlead, Hzero.
+    assert (Hcw : cw <= c) by (unfold cw, radix; lia).
+    pose proof (wf_len M HM) as HlM.
+    assert (HW : wf W) by (apply wf_msub; lia).
+    assert (Ht : topst M piv r c cw) by (constructor; auto; lia).
+    destruct Heq as (HnrA & HncA & _).
+    destruct (gauss_ref_rule W HW) as (swW & pivW & HruleW & HlowW & HrefW & HlenW).
+    destruct (gauss_spec_ex false W HW) as (q & _ & HW' & HeqW & _).
+    set (W' := snd (gauss_delayed false 0 W)) in *.
+    assert (HgW : forall t j, get W t j = (t <? nr M - r) && (j <? nc M - cw) && get M (r + t) (cw + j)).
+    { intros t j. unfold W. rewrite get_msub by lia. reflexivity. }
+    (* the window sequence = pre ++ rest, pre = the interchange already recorded in sw *)
+    set (p0 := if pend then 1 else 0).
+    assert (Hpre : exists rest, swW = repeat (0, 0) p0 ++ rest).
+    { unfold p0. destruct pend; [|now exists swW]. destruct (Hpend eq_refl) as [_ Hgp].
+      destruct (window_first_swap W swW (c - cw) HW HruleW) as [rest ->].
+      - rewrite HgW. destruct (Nat.ltb_spec 0 (nr M - r)); [|lia]. destruct (Nat.ltb_spec (c - cw) (nc M - cw)); [|lia].
+        cbn [andb]. rewrite Nat.add_0_r. now replace (cw + (c - cw)) with c by lia.
+      - intros i col Hcol. rewrite HgW. rewrite (Hzero (r + i) (cw + col)) by lia. apply andb_false_r.
+      - now exists rest. }
+    destruct Hpre as [rest Hsw].
+    assert (Hpre_id : forall l, apply_swaps (repeat (0, 0) p0 ++ l) W = apply_swaps l W).
+    { intros l. unfold p0. destruct pend; [|reflexivity]. cbn [repeat app apply_swaps fold_left fst snd].
+      now rewrite row_swap_same. }
+    assert (HlswW : length swW = p0 + length rest) by (rewrite Hsw, app_length, repeat_length; reflexivity).
+    assert (Hp0 : length sw = r + p0) by (unfold p0; destruct pend; exact Hswl).
+    (* validity of the window interchanges *)
+    assert (HnthW : forall k, k < length swW ->
+              fst (nth k swW (0, 0)) = k /\ k <= snd (nth k swW (0, 0)) < nr M - r).
+    { intros k Hk. destruct HruleW as [HR _]. destruct (HR k Hk) as (H1 & H2 & _). split; [assumption|exact H2]. }
+    assert (Hnthrest : forall k, k < length rest -> nth k rest (0, 0) = nth (p0 + k) swW (0, 0)).
+    { intros k Hk. rewrite Hsw, app_nth2 by (rewrite repeat_length; lia). rewrite repeat_length. f_equal. lia. }
+    assert (Hvalid : forall ab, In ab rest -> fst ab < nr M - r /\ snd ab < nr M - r).
+    { intros ab Hin. destruct (In_nth _ _ (0, 0) Hin) as [k [Hk <-]]. rewrite Hnthrest by assumption.
+      destruct (HnthW (p0 + k) ltac:(lia)) as [H1 H2]. lia. }
+    assert (Hvalidf : forall k ab, In ab (firstn k rest) -> fst ab < nr M - r /\ snd ab < nr M - r).
+    { intros k ab Hin. apply Hvalid. exact (In_firstn' _ _ _ Hin). }
+    exists (sw ++ shiftsw r rest). split.
+    - split.
+      + (* every interchange obeys the rule *)
+        intros i Hi. rewrite app_length in Hi. unfold shiftsw in Hi. rewrite map_length in Hi.
+        destruct (Nat.lt_ge_cases i (length sw)) as [Hlo|Hhi]; [apply rule_at_app_l; auto|].
+        set (k' := i - length sw). assert (Hk' : k' < length rest) by (unfold k'; lia).
+        assert (Ei : i = length sw + k') by (unfold k'; lia).
+        destruct (shifted_swaps M B piv r c cw (firstn k' rest) Ht Hrel HBlen (Hvalidf k'))
+          as (Htk & Hnrk & Hnck & Hmsk & Hrelk & Hlk & Hsamek).
+        set (Mk := apply_swaps (shiftsw r (firstn k' rest)) M) in *.
+        set (Bk := apply_swaps (shiftsw r (firstn k' rest)) B) in *.
+        destruct HruleW as [HR _]. destruct (HR (p0 + k') ltac:(lia)) as (Hf & Hjr & cW & HnW & HfirstW & HleftW).
+        assert (Efirst : apply_swaps (firstn (p0 + k') swW) W = msub Mk r cw (nr M - r) (nc M - cw)).
+        { rewrite Hsw, firstn_app, repeat_length, firstn_all2 by (rewrite repeat_length; lia).
+          replace (p0 + k' - p0) with k' by lia. rewrite Hpre_id. now rewrite Hmsk. }
+        rewrite Efirst in HnW, HfirstW, HleftW. rewrite <- Hnrk, <- Hnck in HnW, HfirstW, HleftW.
+        set (jw := snd (nth (p0 + k') swW (0, 0))) in *.
+        change (nr W) with (nr M - r) in Hjr.
+        assert (Hreli : lrel (r + (p0 + k')) Mk Bk) by (apply (lrel_mono r); [lia|exact Hrelk]).
+        unfold rule_at. rewrite app_nth2 by lia. fold k'. rewrite nth_shiftsw by assumption.
+        rewrite Hnthrest by assumption. cbn [fst snd]. fold jw. rewrite Hf.
+        rewrite firstn_app, firstn_all2 by lia. fold k'. rewrite firstn_shiftsw, apply_swaps_app_l. fold B. fold Bk.
+        split; [lia|]. split; [lia|].
+        exists (cw + cW). replace i with (r + (p0 + k')) by lia. split; [|split].
+        * intros Hd. apply HnW. apply (dep_whole_to_window Mk piv r c cw Htk); [lia|].
+          now apply (dep_lrel_iff _ Mk Bk).
+        * intros j'' Hj''. apply (dep_lrel_iff _ Mk Bk _ _ Hreli).
+          replace j'' with (r + (j'' - r)) by lia. apply (dep_window_to_whole Mk piv r c cw Htk).
+          apply HfirstW. lia.
+        * intros c'' j'' Hc'' Hj''. apply (dep_lrel_iff _ Mk Bk _ _ Hreli).
+          destruct (Nat.lt_ge_cases c'' cw) as [Hlow|Hhigh].
+          -- apply (dep_lrel_iff _ Mk Mk). { intros x. split; exists 0%N; (split; [apply bounded_0|]); now rewrite vmul_0, N.lxor_0_r. }
+             exists 0%N. split; [apply bounded_0|]. intros col Hcol. rewrite vmul_0, N.bits_0.
+             apply (tp_zero _ _ _ _ _ Htk); lia.
+          -- replace c'' with (cw + (c'' - cw)) by lia. replace j'' with (r + (j'' - r)) by lia.
+             apply (dep_window_to_whole Mk piv r c cw Htk). apply HleftW; lia.
+      + (* nothing is left *)
+        intros j col Hj. rewrite app_length in Hj. unfold shiftsw in Hj. rewrite map_length in Hj.
+        rewrite app_length. unfold shiftsw at 2. rewrite map_length.
+        destruct (shifted_swaps M B piv r c cw rest Ht Hrel HBlen Hvalid)
+          as (Htk & Hnrk & Hnck & Hmsk & Hrelk & Hlk & Hsamek).
+        set (Mk := apply_swaps (shiftsw r rest) M) in *. set (Bk := apply_swaps (shiftsw r rest) B) in *.
+        rewrite apply_swaps_app_l. fold B. fold Bk.
+        assert (Hreli : lrel (length sw + length rest) Mk Bk) by (apply (lrel_mono r); [lia|exact Hrelk]).
+        apply (dep_lrel_iff _ Mk Bk _ _ Hreli).
+        destruct HruleW as [_ HstopW].
+        assert (Eend : apply_swaps swW W = msub Mk r cw (nr Mk - r) (nc Mk - cw)).
+        { rewrite Hsw, Hpre_id, Hnrk, Hnck, Hmsk. reflexivity. }
+        rewrite Eend, HlswW in HstopW.
+        replace (length sw + length rest) with (r + (p0 + length rest)) by lia.
+        destruct (Nat.lt_ge_cases col cw) as [Hlow|Hhigh].
+        * exists 0%N. split; [apply bounded_0|]. intros col' Hcol'. rewrite vmul_0, N.bits_0.
+          apply (tp_zero _ _ _ _ _ Htk); lia.
+        * replace col with (cw + (col - cw)) by lia. replace j with (r + (j - r)) by lia.
+          apply (dep_window_to_whole Mk piv r c cw Htk). apply HstopW. lia.
+    - (* P A = L E *)
+      destruct (shifted_swaps M B piv r c cw rest Ht Hrel HBlen Hvalid)
+        as (Htk & Hnrk & Hnck & Hmsk & Hrelk & Hlk & Hsamek).
+      set (Me := apply_swaps (shiftsw r rest) M) in *. set (Be := apply_swaps (shiftsw r rest) B) in *.
+      rewrite apply_swaps_app_l. fold B. fold Be.
+      assert (Eend : apply_swaps swW W = msub Me r cw (nr Me - r) (nc Me - cw)).
+      { rewrite Hsw, Hpre_id, Hnrk, Hnck, Hmsk. reflexivity. }
+      rewrite Eend in HlowW.
+      set (M1 := mpaste M r cw W').
+      assert (HnrW' : nr W' = nr M - r) by (destruct HeqW as (E & _); rewrite <- E; reflexivity).
+      assert (HncW' : nc W' = nc M - cw) by (destruct HeqW as (_ & E & _); rewrite <- E; reflexivity).
+      assert (Hg1 : forall i j, get M1 i j =
+                if (r <=? i) && (i <? nr M) && (cw <=? j) && (j <? nc M) then get W' (i - r) (j - cw) else get M i j).
+      { intros i j. unfold M1. rewrite get_mpaste by (auto; lia). rewrite HnrW', HncW'.
+        replace (r + (nr M - r)) with (nr M) by lia. replace (cw + (nc M - cw)) with (nc M) by lia. reflexivity. }
+      assert (HM1 : wf M1) by (apply wf_mpaste; auto; lia).
+      assert (HzW' : forall t col, col < c - cw -> get W' t col = false).
+      { intros t col Hcol. destruct HeqW as (_ & _ & _ & I2). destruct (rs_incl_row W' W t I2) as [x Hx].
+        unfold get. rewrite <- Hx, testbit_vmul. apply xsum_zero. intros t' Ht'. rewrite HgW.
+        rewrite (Hzero (r + t') (cw + col)) by lia. now rewrite !andb_false_r. }
+      assert (Hsame1 : forall i, i < r -> row M1 i = row M i).
+      { intros i Hi. apply (row_ext (nc M)); [now apply (wf_row_bounded M1)|now apply wf_row_bounded|].
+        intros j _. change (get M1 i j = get M i j). rewrite Hg1. destruct (Nat.leb_spec r i); [lia|reflexivity]. }
+      assert (Ht1 : topst M1 piv r c cw).
+      { constructor; auto; try lia.
+        - intros i Hi. rewrite Hsame1 by assumption. now apply Hlead.
+        - intros i col Hi Hcol. rewrite Hg1.
+          destruct ((r <=? i) && (i <? nr M) && (cw <=? col) && (col <? nc M)) eqn:Eb; [|now apply Hzero].
+          apply andb_true_iff in Eb as [Eb _]. apply andb_true_iff in Eb as [_ Eb]. apply Nat.leb_le in Eb.
+          apply HzW'. lia.
+        - change (nc M1) with (nc M). lia. }
+      assert (Ems1 : msub M1 r cw (nr M1 - r) (nc M1 - cw) = W').
+      { change (nr M1) with (nr M). change (nc M1) with (nc M). apply mat_ext; auto.
+        - apply wf_msub. rewrite (wf_len M1 HM1). change (nr M1) with (nr M). lia.
+        - intros i j Hi Hj. cbn [nr nc msub] in Hi, Hj.
+          rewrite get_msub by (rewrite (wf_len M1 HM1); change (nr M1) with (nr M); lia).
+          destruct (Nat.ltb_spec i (nr M - r)); [|lia]. destruct (Nat.ltb_spec j (nc M - cw)); [|lia]. cbn [andb].
+          rewrite Hg1. destruct (Nat.leb_spec r (r + i)); [|lia]. destruct (Nat.ltb_spec (r + i) (nr M)); [|lia].
+          destruct (Nat.leb_spec cw (cw + j)); [|lia]. destruct (Nat.ltb_spec (cw + j) (nc M)); [|lia]. cbn [andb].
+          f_equal; lia. }
+      assert (Hag : forall x, bounded r x -> vmul x Me = vmul x M1).
+      { intros x Hx. apply (vmul_agree x _ _ r Hx). intros k Hk. now rewrite Hsamek, Hsame1. }
+      intros i. destruct (Hrelk i) as [[x [Hx Ex]] _].
+      destruct (Nat.lt_ge_cases i r) as [Hi|Hi].
+      + exists x. split; [apply (bounded_mono (Nat.min i r)); [lia|assumption]|].
+        rewrite <- Hag by (apply (bounded_mono (Nat.min i r)); [lia|assumption]).
+        now rewrite Hsame1, <- Hsamek by assumption.
+      + replace (Nat.min i r) with r in Hx by lia.
+        destruct (HlowW (i - r)) as [xw [Hxw Exw]].
+        exists (N.lxor x (N.shiftl xw (N.of_nat r))). split.
+        * apply bounded_lxor; [apply (bounded_mono r); [lia|assumption]|].
+          replace i with (i - r + r) by lia. now apply bounded_shiftl.
+        * rewrite vmul_lxor, <- Hag by assumption. apply bits_ext_nat. intros col.
+          rewrite !N.lxor_spec.
+          assert (EB : N.testbit (row Be i) (N.of_nat col) =
+                       xorb (N.testbit (row Me i) (N.of_nat col)) (N.testbit (vmul x Me) (N.of_nat col))).
+          { rewrite Ex, N.lxor_spec. destruct (N.testbit (row Be i) _), (N.testbit (vmul x Me) _); reflexivity. }
+          rewrite EB.
+          destruct (Nat.lt_ge_cases col cw) as [Hlow|Hhigh].
+          -- rewrite (vmul_shift_lo M1 piv r c cw Ht1) by assumption.
+             assert (Z1 : N.testbit (row M1 (r + (i - r))) (N.of_nat col) = false)
+               by (apply (tp_zero _ _ _ _ _ Ht1); lia).
+             assert (Z2 : N.testbit (row Me (r + (i - r))) (N.of_nat col) = false)
+               by (apply (tp_zero _ _ _ _ _ Htk); lia).
+             replace (r + (i - r)) with i in Z1, Z2 by lia. rewrite Z1, Z2. now destruct (N.testbit (vmul x Me) _).
+          -- assert (Ec : exists col', col = cw + col') by (exists (col - cw); lia). destruct Ec as [col' ->].
+             rewrite (vmul_shift_hi M1 piv r c cw Ht1), Ems1.
+             pose proof (get_window M1 piv r c cw Ht1 (i - r) col') as G1. rewrite Ems1 in G1. unfold get in G1.
+             pose proof (get_window Me piv r c cw Htk (i - r) col') as G2. unfold get in G2.
+             replace (r + (i - r)) with i in G1, G2 by lia. rewrite G1, G2, Exw, N.lxor_spec.
+             set (a := N.testbit (row (msub Me r cw (nr Me - r) (nc Me - cw)) (i - r)) (N.of_nat col')).
+             set (b := N.testbit (vmul x Me) (N.of_nat (cw + col'))).
+             set (d := N.testbit (vmul xw W') (N.of_nat col')).
+             destruct a, b, d; reflexivity.
+  Qed.
+
+(** * 16. MAIN THEOREM, non-reduced mode, ANY switching oracle, window echeloniser returning the output
+    of naive Gauss: the result is bit for bit the output of naive Gauss on A *)
+Section MainNonFullStrong.
+  Variable ech : bool -> mat -> nat * mat.
+  Variables k ktop : nat.
+  Variable oracle : nat -> bool.
+  Variable A : mat.
+  Hypothesis Hk : 1 <= k.
+  Hypothesis ech_can : forall W, wf W -> ech false W = gauss_delayed false 0 W.
+
+  Definition nf_strong (M : mat) (piv : list nat) : Prop :=
+    wf M /\ row_equiv A M /\ is_ref M piv /\
+    exists sw, first_row_rule A sw /\ lower_rel (apply_swaps sw A) M.
+
+  Lemma ech_can_ok : ech_nonfull_ok ech.
+  Proof. intros W HW. rewrite (ech_can W HW). exact (gauss_spec_ex false W HW). Qed.
+
+  Lemma switch_nonfull_strong c M piv sw pend : ninv A c M piv sw pend -> c < nc M -> length piv < nr M ->
+    exists M' piv', switch ech ktop false M (length piv) c = Some (length piv', M') /\ nf_strong M' piv'.
+  Proof.
+    intros Hn Hc Hr. pose proof (gi_wf _ _ _ _ _ (n_g _ _ _ _ _ _ Hn)) as HM.
+    destruct (switch_nonfull_spec ech ktop A ech_can_ok c M piv (n_g _ _ _ _ _ _ Hn) Hc Hr)
+      as (M' & piv' & E & H1 & H2 & H3).
+    exists M', piv'. split; [assumption|]. split; [assumption|]. split; [assumption|]. split; [assumption|].
+    destruct (switch_rule A c M piv sw pend Hn Hc Hr) as (sw' & Hrule & Hlow). exists sw'. split; [assumption|].
+    unfold switch in E. rewrite ech_can in E by (apply wf_msub; rewrite (wf_len M HM); lia).
+    destruct (gauss_delayed false 0 (msub M (length piv) (radix * (c / radix)) (nr M - length piv)
+                                          (nc M - radix * (c / radix)))) as [r2 W'] eqn:Eg.
+    cbn [andb snd] in E, Hlow. injection E as _ <-. exact Hlow.
+  Qed.
+
+  Lemma ninv_nf_strong M piv sw pend : ninv A (nc A) M piv sw pend -> nf_strong M piv.
+  Proof.
+    intros H. destruct (ninv_final A M piv sw pend H) as (H1 & H2 & H3 & H4 & H5).
+    split; [assumption|]. split; [assumption|]. split; [assumption|]. now exists sw.
+  Qed.
+
+  Lemma m4ri_loop_nonfull_strong fuel : forall it c M piv sw pend, ninv A c M piv sw pend ->
+    c <= nc M -> nc M - c <= fuel ->
+    exists M' piv', m4ri_loop ech k ktop oracle fuel it false M (length piv) c = Some (length piv', M') /\
+                    nf_strong M' piv'.
+  Proof.
+    induction fuel as [|fuel IH]; intros it c M piv sw pend Hn Hc Hf.
+    - assert (c = nc M) by lia. subst c. cbn [m4ri_loop]. rewrite Nat.leb_refl.
+      exists M, piv. split; [reflexivity|]. apply (ninv_nf_strong M piv sw pend).
+      destruct (gi_equiv _ _ _ _ _ (n_g _ _ _ _ _ _ Hn)) as (_ & Hnc & _). now rewrite Hnc.
+    - cbn [m4ri_loop]. destruct (Nat.leb_spec (nc M) c) as [Hge|Hlt].
+      + assert (c = nc M) by lia. subst c. exists M, piv. split; [reflexivity|].
+        apply (ninv_nf_strong M piv sw pend).
+        destruct (gi_equiv _ _ _ _ _ (n_g _ _ _ _ _ _ Hn)) as (_ & Hnc & _). now rewrite Hnc.
+      + destruct (oracle it && (length piv <? nr M)) eqn:Eo.
+        * apply andb_true_iff in Eo as [_ Eo]. apply Nat.ltb_lt in Eo.
+          now apply (switch_nonfull_strong c M piv sw pend).
+        * set (kk := Nat.min (6 * k) (nc M - c)).
+          destruct (block_step k false M (length piv) c kk) as [M1 kbar] eqn:Eb.
+          destruct (block_nonfull_spec A k piv sw pend c M kk Hn ltac:(lia) ltac:(lia) M1 kbar Eb)
+            as (Hkb & Hnc1 & sw1 & Hn1).
+          assert (Hlen1 : length (piv ++ seq c kbar) = length piv + kbar)
+            by (rewrite app_length, seq_length; reflexivity).
+          rewrite <- Hlen1.
+          destruct (Nat.eqb_spec kbar kk) as [Ek|Ek].
+          -- apply (IH _ _ _ _ sw1 false); [assumption|lia|lia].
+          -- destruct (find_pivot M1 (length (piv ++ seq c kbar)) (c + kbar)) as [[rbar cbar]|] eqn:Ef.
+             ++ destruct (ninv_find_pivot_some A _ (c + kbar) M1 _ sw1 rbar cbar Hn1 ltac:(lia) Ef) as (Hn2 & Hcb).
+                apply (IH _ _ _ _ _ true Hn2); cbn [nc row_swap set_row]; lia.
+             ++ exists M1, (piv ++ seq c kbar). split; [reflexivity|].
+                apply (ninv_nf_strong M1 _ sw1 false). destruct Hn1 as [Hg1 Q1 Q2 Q3 Q4 Q5].
+                constructor; auto; [|discriminate].
+                apply (ginv_find_pivot_none false A _ (c + kbar) M1 _ Hg1); [lia|lia|assumption].
+  Qed.
+End MainNonFullStrong.
+
+Lemma nf_strong_result A M piv : wf A -> nf_strong A M piv -> (length piv, M) = gauss_delayed false 0 A.
+Proof.
+  intros HA (HM & Heq & Href & sw & Hrule & Hlow).
+  rewrite (surjective_pairing (gauss_delayed false 0 A)). f_equal.
+  - rewrite gauss_rank by assumption. now apply (rank_canonical A M).
+  - destruct Heq as (Hnr & Hnc & _). apply (ref_canonical A M sw piv); auto.
+Qed.
+
+Theorem m4ri_nonfull_canonical_any ech k ktop oracle A : 1 <= k ->
+  (forall W, wf W -> ech false W = gauss_delayed false 0 W) -> wf A ->
+  m4ri_model ech k ktop oracle false A = Some (gauss_delayed false 0 A).
+Proof.
+  intros Hk Hech HA.
+  destruct (oracle 0 && (0 <? nc A) && (0 <? nr A)) eqn:Eo.
+  - apply andb_true_iff in Eo as [Eo E2]. apply andb_true_iff in Eo as [Eo E1].
+    apply Nat.ltb_lt in E1, E2. now apply m4ri_nonfull_canonical_entry.
+  - unfold m4ri_model. rewrite Eo.
+    destruct (m4ri_loop_nonfull_strong ech k ktop oracle A Hk Hech (nc A) 1 0 A [] [] false (ninv_init A HA)
+                ltac:(lia) ltac:(lia)) as (M' & piv' & E & Hs).
+    cbn [length] in E. rewrite E. f_equal. now apply nf_strong_result.
+Qed.
+
+Print Assumptions m4ri_nonfull_spec.
+Print Assumptions m4ri_nonfull_canonical.
+Print Assumptions m4ri_nonfull_canonical_any.
